@@ -1351,6 +1351,50 @@ pub fn run(opts: &Opts) -> Report {
             rep.sample(json!({"script": script}));
         }
     }
+    // ---------- C14: annotate_from_file with a document the JSON layer refuses leaves the store as it was ----------
+    if property.map(|p| p == "C14").unwrap_or(true) {
+        let n = if opts.thorough() { 400 } else { 80 };
+        let dir = std::path::Path::new(env!("CARGO_MANIFEST_DIR")).join("target").join("scratch").join(format!("af{}", std::process::id()));
+        std::fs::create_dir_all(&dir).ok();
+        for i in 0..n {
+            let mut g = Gen { rng: Rng::new(opts.seed.wrapping_mul(3_000_017).wrapping_add(i as u64)), rich: false, force_ids: true, res: vec![], sets: vec![], keys: vec![], anns: vec![], nann: 0, data_ids: vec![], next_id: 0 };
+            let mut script: Vec<String> = vec!["st addres r0 9".into(), "st adddata s0 d0 k0 s:v0".into()];
+            let nops = g.rng.below(8);
+            script.extend((0..nops).map(|_| g.op()));
+            let mut ex = Exec::new();
+            for l in &script { ex.exec(l); }
+            let good = |k: usize, b: usize| format!("{{\"@type\": \"Annotation\", \"@id\": \"file{}\", \"target\": {{\"@type\": \"TextSelector\", \"resource\": \"r0\", \"offset\": {{\"@type\": \"Offset\", \"begin\": {{\"@type\": \"BeginAlignedCursor\", \"value\": {}}}, \"end\": {{\"@type\": \"BeginAlignedCursor\", \"value\": {}}}}}}}, \"data\": [{{\"@type\": \"AnnotationData\", \"set\": \"fileset\", \"key\": \"filekey{}\", \"value\": {{\"@type\": \"String\", \"value\": \"x{}\"}}}}]}}", k, b, b + 1 + k % 3, k % 2, k);
+            let total = 2 + g.rng.below(4);
+            let badpos = g.rng.below(total + 1); // == total: no malformed element
+            let (badname, bad) = *g.rng.pick(&[("no-target", "{\"@type\": \"Annotation\", \"@id\": \"bad\", \"data\": []}"), ("wrong-type", "{\"@type\": \"Annotation\", \"@id\": 7, \"target\": {\"@type\": \"ResourceSelector\", \"resource\": \"r0\"}}"), ("not-an-object", "42"), ("syntax", "{\"@type\": \"Annotation\" \"@id\"}"), ("unknown-selector", "{\"@type\": \"Annotation\", \"@id\": \"bad\", \"target\": {\"@type\": \"NoSuchSelector\"}}")]);
+            let mut items: Vec<String> = (0..total).map(|k| good(k, k % 4)).collect();
+            let malformed = badpos < total;
+            if malformed { items.insert(badpos, bad.to_string()); }
+            let mut doc = format!("[{}]", items.join(",\n"));
+            let truncated = !malformed && g.rng.chance(30);
+            if truncated { let cut = doc.len() * 2 / 3; doc.truncate(cut); }
+            let path = dir.join(format!("a{}.json", i));
+            std::fs::write(&path, &doc).ok();
+            let before = observe(&ex.store);
+            let r = guarded(std::panic::AssertUnwindSafe(|| ex.store.annotate_from_file(path.to_str().unwrap()).map(|_| ()).map_err(|e| format!("{}", e))));
+            let after = observe(&ex.store);
+            let mut ctx = script.clone();
+            ctx.push(format!("annotate_from_file: {} well-formed annotations{}{}", total, if malformed { format!(", a malformed element ({}) at position {}", badname, badpos) } else { String::new() }, if truncated { ", file truncated" } else { "" }));
+            ctx.push(format!("document: {}", doc.replace('\n', " ")));
+            rep.count(&format!("annotate_from_file:{}", if malformed { badname } else if truncated { "truncated" } else { "well-formed" }));
+            rep.case(Some(&format!("aff {} {}", i, doc)));
+            match r {
+                Err(p) => rep.fail("panic", "C14/annotate_from_file-panics", ctx, "Ok or Err", &p),
+                Ok(Err(e)) if (malformed || truncated) => { if before != after { let (a, b): (Vec<&str>, Vec<&str>) = (before.split(' ').collect(), after.split(' ').collect()); rep.fail("oracle", &format!("C14/annotate_from_file-refused-but-store-changed/{}", if malformed { badname } else { "truncated" }), ctx, &format!("{} items, unchanged", a.len()), &format!("{} items after the refusal ({})", b.len(), e.chars().take(80).collect::<String>())); } }
+                Ok(Ok(())) if (malformed || truncated) => rep.fail("oracle", "C14/annotate_from_file-accepted-malformed-document", ctx, "an error", "Ok"),
+                Ok(Ok(())) => { if !after.contains("file0") { rep.fail("oracle", "C14/annotate_from_file-well-formed-but-nothing-added", ctx, "the annotations of the file", "none of them"); } }
+                // a well-formed document can still fail in annotate() (e.g. its resource was removed): that path is annotate()'s own
+                Ok(Err(_)) => rep.count("annotate_from_file:well-formed-but-annotate-failed"),
+            }
+            std::fs::remove_file(&path).ok();
+        }
+        std::fs::remove_dir_all(&dir).ok();
+    }
     // ---------- C03: identifier resolution on top of histories ----------
     if property.map(|p| p == "C03").unwrap_or(true) {
         let n03 = if opts.thorough() { 3000 } else { 400 };
